@@ -282,6 +282,21 @@ def run_shard(spec, rec):
                     if bad:
                         rec.violation("find:" + bad, {"query": text, "source": "comparison-battery", "document": jsonable(doc), "observed": mon.describe_outcome(o2)})
         rec.feat("comparison-battery")
+    # literal battery: every class of malformed string literal in every position
+    for q_ in "'\"":
+        other = '"' if q_ == "'" else "'"
+        bodies = ["\\" + other, "a\\" + other + "b", "\\x", "\\u", "\\u12", "\\u12g4", "\\u-001", "\\u+041", "\\u 041", "\\ud800", "\\udc00", "\\ud800\\u0041", "\\ud800\\ud800",
+                  "\\", "a\\", "\x01", "a\nb", "\\U0041", "\\N", "\\0", "\\u00", "\\ud83d\\u", "\\udfff\\ud800", "\\u0x41", "\\u１２３４"]
+        for body in bodies:
+            for tmpl in ("$[%s]", "$[?@ == %s]", "$[?match(@, %s)]", "$[0, %s]", "$..[%s, 1]", "$[?%s == %s]", "$[?length(%s) > 1]"):
+                text = tmpl.replace("%s", q_ + body + q_)
+                o = mon.observe(jp.compile, text)
+                rec.monitor("M-compile")
+                rec.case(text, True)
+                bad = outcome_bad(o)
+                if bad:
+                    rec.violation("compile:" + bad, {"query": text, "source": "literal-battery", "observed": mon.describe_outcome(o)})
+    rec.feat("literal-battery")
     stmts = raise_statements(pkg)
     hit = {k.split(" ")[0] for k in sites.sites}
     rec.extra["raise_sites"] = sites.sites
